@@ -64,6 +64,7 @@ func limitsReserveProfile() *harness.Profile {
 		harness.OpForeign: 1, harness.OpSetPred: 3})
 	p.NodeLo, p.NodeHi, p.AskLo, p.AskHi = 4, 10, 2, 8
 	p.OldAskProb, p.GangProb, p.ReqNodeProb = 80, 10, 5
+	p.UserPool = []string{"u1", "u3"} // few users: several applications compete for one user's (and group g1's) quota
 	return p
 }
 
